@@ -99,8 +99,10 @@ def run(ck):
         f = P.fn(q)
         ck.touch(f)
         mcalls = [i for i in f.walk() if f.nodes[i].get('callee') == NA + 'manifest_ttl']
+        ck.ob('C03.flow', 'C03.flow/%s/lifetimes-derive-from-manifest_ttl' % q.split('::')[-1], bool(mcalls), f.loc(),
+              '%s obtains the lifetime it hands on from manifest_ttl(manifest, config_) (not from the age of a stored replica or any other clock)' % q.split('::')[-1])
         if not mcalls:
-            raise AnalysisBroken('%s no longer calls manifest_ttl' % q)
+            continue
         ttl_locals = set()
         for m in mcalls:
             for a in f.ancestors(m):
